@@ -163,10 +163,45 @@ func (w *World) derivedFromNode(fn *ssa.Function, x, node *Term) bool {
 		if al == nil || al.Referrers() == nil {
 			return false
 		}
+		// every write that initialises the cell must be computed from the node: a FromNodeInfo(&cell, node)
+		// call, a whole-value store of a term mentioning node, or field stores whose values mention node
 		inits := 0
 		for _, r := range *al.Referrers() {
 			switch u := r.(type) {
 			case *ssa.UnOp, *ssa.DebugRef:
+			case *ssa.Store:
+				if u.Addr != ssa.Value(al) {
+					return false
+				}
+				if _, isConst := u.Val.(*ssa.Const); isConst {
+					continue // zero initialisation
+				}
+				if !w.TS.Of(u.Val).Contains(node) {
+					return false
+				}
+				inits++
+			case *ssa.FieldAddr:
+				if u.Referrers() == nil {
+					continue
+				}
+				for _, r2 := range *u.Referrers() {
+					switch v := r2.(type) {
+					case *ssa.Store:
+						if v.Addr != ssa.Value(u) {
+							return false
+						}
+						if _, isConst := v.Val.(*ssa.Const); isConst {
+							continue
+						}
+						if !w.TS.Of(v.Val).Contains(node) {
+							return false
+						}
+						inits++
+					case *ssa.UnOp, *ssa.DebugRef:
+					default:
+						return false
+					}
+				}
 			case ssa.CallInstruction:
 				c := u.Common()
 				o := calleeObj(c)
@@ -179,7 +214,7 @@ func (w *World) derivedFromNode(fn *ssa.Function, x, node *Term) bool {
 				return false
 			}
 		}
-		return inits == 1
+		return inits >= 1
 	}
 	return false
 }
@@ -230,8 +265,8 @@ func c02r2(w *World, rr *RuleRun) {
 		if nodeV == nil {
 			continue
 		}
-		np, nIsParam := nodeV.(*ssa.Parameter)
-		dp, dIsParam := fs["Data"].(*ssa.Parameter)
+		np, nIsParam := w.paramOf(nodeV)
+		dp, dIsParam := w.paramOf(fs["Data"])
 		if nIsParam && dIsParam && np.Parent() == fn && dp.Parent() == fn {
 			// inserted values are parameters: check every caller
 			ni, di := paramIndex(fn, np), paramIndex(fn, dp)
@@ -442,4 +477,19 @@ func c02r5(w *World, rr *RuleRun) {
 			return false, ""
 		})
 	}
+}
+
+// paramOf: v is a parameter, possibly read back from the single-assignment cell go/ssa spills an
+// address-taken parameter into.
+func (w *World) paramOf(v ssa.Value) (*ssa.Parameter, bool) {
+	if p, ok := v.(*ssa.Parameter); ok {
+		return p, true
+	}
+	t := w.TS.Of(v)
+	if t.Op == OpParam {
+		if p, ok := t.Obj.(*ssa.Parameter); ok {
+			return p, true
+		}
+	}
+	return nil, false
 }
